@@ -85,7 +85,12 @@ def _gmm_params(rng, X, c):
     spread = X.std(axis=0) + 1e-3 * (np.abs(X).max(axis=0) + 1e-12)
     means = X[idx] + rs.randn(c, d) * 0.1 * spread
     variances = (spread ** 2) * rs.uniform(0.5, 2.0, size=(c, d))
-    return sig6(means), sig6(variances), gen_simplex(rng, c)
+    means, variances, weights = sig6(means), sig6(variances), gen_simplex(rng, c)
+    if c >= 2 and rng.random() < 0.06:
+        # two identical components: every sample's responsibilities tie exactly
+        a, b = rng.sample(range(c), 2)
+        means[b], variances[b], weights[b] = means[a], variances[a], weights[a]
+    return means, variances, weights
 
 
 def gen_case(rng, tier, kind=None):
@@ -264,6 +269,10 @@ def gen_case(rng, tier, kind=None):
     if not case.get("nan_mask") and not case.get("fchunks") and rng.random() < 0.06:
         # the Dask array is assembled from delayed per-block loaders (one delayed object per file)
         case["from_delayed"] = True
+    if rng.random() < 0.08:
+        case["failed_first"] = rng.choice([0, 1, 2, 3, 5, 8, 13, 21, 40])
+    elif rng.random() < 0.06:
+        case["rejected_first"] = True
     if not case.get("nan_mask") and rng.random() < 0.08:
         # the Dask array is an unevaluated expression (exactly representable: x/2*2), built
         # from two concatenated pieces, rather than a wrapped in-memory array
@@ -503,6 +512,19 @@ def _cmp(pa, pb, s, tol):
 
 
 def _fit(case, m, X):
+    if case.get("rejected_first") and X.shape[1] >= 2 and not case.get("nan_mask"):
+        # (one feature broadcasts against anything; unknown chunk sizes cannot be concatenated)
+        # the caller first passes data of the wrong feature dimension (through the same kind
+        # of container), catches the exception if there is one, and then trains properly
+        try:
+            if isinstance(X, da.Array):
+                _fit_once(case, m, da.concatenate([X, X[:, :1]], axis=1))
+            else:
+                _fit_once(case, m, np.concatenate([X, X[:, :1]], axis=1))
+        except HarnessError:
+            raise
+        except Exception:
+            pass
     m = _fit_once(case, m, X)
     if case.get("refit"):
         # a long-lived estimator object trained again (nothing from the first call may leak
@@ -611,6 +633,7 @@ def run_case(case, replay=None):
     rec.probe("lazy_expression_input", bool(case.get("lazy_expr")))
     rec.probe("integer_grid_data_with_exact_ties", bool(case.get("grid")))
     rec.probe("array_from_delayed_blocks", bool(case.get("from_delayed")))
+    rec.probe("wrong_dimension_call_before_training", bool(case.get("rejected_first")))
     rec.probe("refit_through_same_named_array", bool(case.get("same_name")))
     rec.probe("mode_" + case["sched"]["mode"])
     rec.probe("fault_free_configuration", bool(case.get("fault_free")))
@@ -688,10 +711,36 @@ def run_case(case, replay=None):
                 skip = "ill-conditioned"
 
     # ---------------- Dask side under the simulator ----------------
+    carry = {}
+    if case.get("failed_first") is not None:
+        # a first attempt fails (the simulator makes a task raise: a lost worker, an error
+        # inside a task); the caller catches the exception and trains again - with the same
+        # estimator object where fit() re-initialises, and through the same Dask array object
+        from ..sim import InjectedTaskFailure
+
+        def first():
+            with np.errstate(all="ignore"):
+                carry["est"] = _make(case, K if iterative else None, None)
+                carry["X"] = _dask_X(case, fresh())
+                _fit_once(case, carry["est"], carry["X"])
+        try:
+            rec.run(dict(sched, fail_after=case["failed_first"]), first, label="failed")
+            rec.probe("first_attempt_finished_before_the_failure_point")
+        except InjectedTaskFailure:
+            rec.probe("first_attempt_failed_then_retried")
+        except HarnessError:
+            raise
+        except Exception:
+            pass  # the attempt failed for its own reasons; the retry below decides
+        if kind not in ("kmeans", "wccn", "whitening"):
+            carry.pop("est", None)  # these continue from their state: retry with a fresh one
+
     def dask_fit(max_steps, t):
         def go():
             with np.errstate(all="ignore"):
-                m = _fit(case, _make(case, max_steps, t), _dask_X(case, fresh()))
+                est = carry.pop("est", None) or _make(case, max_steps, t)
+                Xd = carry.pop("X", None)
+                m = _fit(case, est, Xd if Xd is not None else _dask_X(case, fresh()))
                 return _params(kind, m)
         return go
 
